@@ -314,7 +314,7 @@ pub fn judge(base: &Tree, muts: &[usize], scratch: &Scratch) -> Vec<Violation> {
 pub fn run(report: &Report, budget: &Budget) {
     let thorough = report.thorough();
     let muts: Vec<usize> = (0..N_MUT).collect();
-    let sets = gen::subsets_upto(&muts, if thorough { 4 } else { 3 });
+    let sets = gen::subsets_upto(&muts, if thorough { 5 } else { 3 });
     let bases = base_trees();
     let scratches: Vec<Scratch> = (0..crate::util::n_workers()).map(|_| Scratch::new("c18")).collect();
     let n = AtomicU64::new(0);
